@@ -272,6 +272,8 @@ def run(R, env):
                 R.ob("C18.R4", ns + ":record", False, "unrecognised record %s" % fmt(v)[:120], loc=o["loc"], fn=mk)
                 continue
             from engine.analysis import forms
+            # fields that are components of a local helper's result (`..old.upgrade(&defaults).into_transfer(seq)`)
+            v = ("agg", v[1], v[2], tuple((k_, n_, shared._head_resolved(prog, x_)) for k_, n_, x_ in v[3]))
             for af in forms(prog, agg_field(v, "amount") or ("none",), 2):
                 am, den = shared.coin_parts(af)
                 if am is not None and den is not None:
